@@ -40,6 +40,15 @@ Definition enable_run := idx_run OpEnable.
 (* strings with non-printable / non-ASCII bytes are printed by the harness as byte lists *)
 Definition bs (l : list N) : string := string_of_list_ascii (map Ascii.ascii_of_N l).
 
+(* the frequencies of the AddChannel calls of a history that were not refused (read off the
+   observed error flags, not off the model) *)
+Fixpoint accepted_add_freqs (ops : list chan_op) (errs : list bool) : list Z :=
+  match ops, errs with
+  | OpAdd f _ _ :: ops', false :: errs' => f :: accepted_add_freqs ops' errs'
+  | _ :: ops', _ :: errs' => accepted_add_freqs ops' errs'
+  | _, _ => []
+  end.
+
 Inductive case :=
 (* configuration index <-> identity (keeps harness and dumper enumeration in step);
    [alias]: Name() of the deprecated alias of this band name, "" if none *)
@@ -118,7 +127,9 @@ Definition check (c : case) : N :=
                      end) o_down
           && oz_eqb (get_rx1_frequency cfg' f) o_freq)
          (match region_of (c_name cfg) with
-          | Some reg => rx1_channel_obs_ok reg ch f o_idx o_down o_freq
+          | Some reg =>
+            rx1_channel_obs_ok reg ch f o_idx o_down o_freq
+            && uplink_freq_after_adds_ok reg (accepted_add_freqs ops errs) ch f
           | None => false
           end)
   | CGetConfig name ok =>
